@@ -12,7 +12,7 @@
 static char *
 disassem_string (char *str)
 {
-  static char buf[30];
+  static char buf[2 * 29 + 1];	/* 29 characters, a newline takes two bytes */
   char *b;
   int i;
 
@@ -233,7 +233,10 @@ void disassemble (FILE *f, char *code, ptrdiff_t start, ptrdiff_t end, program_t
           {
             int which = EXTRACT_UCHAR (p++);
 
-            strcpy (buff, STRS[CLSS[which].name]);
+            /* names (class, function, variable, program) are as long as the source
+             * makes them: they are cut to the line buffer, here and below (where a number
+             * follows the name, the precision leaves room for it) */
+            snprintf (buff, sizeof (buff), "%s", STRS[CLSS[which].name]);
             break;
           }
 
@@ -241,8 +244,8 @@ void disassemble (FILE *f, char *code, ptrdiff_t start, ptrdiff_t end, program_t
           COPY_SHORT (&sarg, p);
           p += 3;
           if (sarg < NUM_FUNS(prog))
-            sprintf (buff, "%-12s %5d", function_name (prog, sarg),
-                     (int) sarg);
+            snprintf (buff, sizeof (buff), "%-12.240s %5d", function_name (prog, sarg),
+                      (int) sarg);
           else
             sprintf (buff, "<out of range %d>", (int) sarg);
           break;
@@ -255,17 +258,17 @@ void disassemble (FILE *f, char *code, ptrdiff_t start, ptrdiff_t end, program_t
             COPY_SHORT (&sarg, p);
             p += 3;
             if (sarg < newprog->num_functions_total)
-              sprintf (buff, "%30s::%-12s %5d", newprog->name,
-                       function_name (newprog, sarg), (int) sarg);
+              snprintf (buff, sizeof (buff), "%30.110s::%-12.120s %5d", newprog->name,
+                        function_name (newprog, sarg), (int) sarg);
             else
-              sprintf (buff, "<out of range in %30s - %d>", newprog->name,
-                       (int) sarg);
+              snprintf (buff, sizeof (buff), "<out of range in %30.200s - %d>", newprog->name,
+                        (int) sarg);
             break;
           }
         case F_GLOBAL_LVALUE:
         case F_GLOBAL:
           if ((unsigned) (iarg = EXTRACT_UCHAR (p)) < NUM_VARS)
-            sprintf (buff, "%s", variable_name (prog, iarg));
+            snprintf (buff, sizeof (buff), "%s", variable_name (prog, iarg));
           else
             sprintf (buff, "<out of range %d>", iarg);
           p++;
@@ -326,7 +329,7 @@ void disassemble (FILE *f, char *code, ptrdiff_t start, ptrdiff_t end, program_t
           break;
         case F_SIMUL_EFUN:
           COPY_SHORT (&sarg, p);
-          sprintf (buff, "\"%s\" %d", simuls[sarg].func->name, p[2]);
+          snprintf (buff, sizeof (buff), "\"%.240s\" %d", simuls[sarg].func->name, p[2]);
           p += 3; /* index(2), num_args(1)*/
           break;
 
@@ -335,7 +338,7 @@ void disassemble (FILE *f, char *code, ptrdiff_t start, ptrdiff_t end, program_t
             {
             case FP_SIMUL:
               LOAD_SHORT (sarg, p);
-              sprintf (buff, "<simul_efun> \"%s\"", simuls[sarg].func->name);
+              snprintf (buff, sizeof (buff), "<simul_efun> \"%s\"", simuls[sarg].func->name);
               break;
             case FP_EFUN:
               LOAD_SHORT (sarg, p);
@@ -344,7 +347,7 @@ void disassemble (FILE *f, char *code, ptrdiff_t start, ptrdiff_t end, program_t
             case FP_LOCAL:
               LOAD_SHORT (sarg, p);
               if (sarg < NUM_FUNS(prog))
-                sprintf (buff, "<local_fun> %s", function_name (prog, sarg));
+                snprintf (buff, sizeof (buff), "<local_fun> %s", function_name (prog, sarg));
               else
                 sprintf (buff, "<local_fun> <out of range %d>", (int) sarg);
               break;
